@@ -500,7 +500,20 @@ inductive Mode (α : Type) where
   | otherStatus (b : Option (Msg α))
   /-- the POST raises -/
   | exception
+  /-- the answer arrives on the event stream first, then the POST completes in ANY way (200 with a
+  body, unreadable 200, 202, another status, exception) -/
+  | evThenPost (m : Msg α) (p : Post α)
   deriving Repr
+
+/-- what a POST completion alone ends a request with, when the request's future was already
+resolved by the event `m` -/
+def postTerminal {α : Type} (k : Str) (m : Msg α) : Post α → Out α
+  | .ok200 (some b) => .routed b
+  | .ok200 none => .failErr k
+  | .accepted => .routed m
+  | .other (some b) => if answers k b then .routed b else .failErr k
+  | .other none => .failErr k
+  | .exc => .failErr k
 
 /-- schedule of one request: `bg0` / `bg1` / `bg2` are event-stream messages handled before the
 POST is answered / between the two racing steps / afterwards -/
@@ -513,7 +526,8 @@ def sched {α : Type} (k : Str) (mode : Mode α) (bg0 bg1 bg2 : List (Msg α)) :
    | .ackThenEv m => [.post .accepted] ++ bg1.map .event ++ [.event m]
    | .silence => [.post .accepted] ++ bg1.map .event ++ [.timeout]
    | .otherStatus b => [.post (.other b)]
-   | .exception => [.post .exc]) ++ bg2.map .event
+   | .exception => [.post .exc]
+   | .evThenPost m p => [.event m] ++ bg1.map .event ++ [.post p]) ++ bg2.map .event
 
 /-- the terminal message the request must end with -/
 def terminal {α : Type} (k : Str) : Mode α → Out α
@@ -525,18 +539,24 @@ def terminal {α : Type} (k : Str) : Mode α → Out α
   | .otherStatus (some b) => if answers k b then .routed b else .failErr k
   | .otherStatus none => .failErr k
   | .exception => .failErr k
+  | .evThenPost m p => postTerminal k m p
 
 /-- the answer carried by the mode (if any) is a well-formed response to this request -/
 def Mode.wf {α : Type} (k : Str) : Mode α → Prop
   | .body b => b.ok = true ∧ b.key = some k
   | .evThenAck m => m.ok = true ∧ m.key = some k
   | .ackThenEv m => m.ok = true ∧ m.key = some k
+  | .evThenPost m p => (m.ok = true ∧ m.key = some k) ∧
+      (match p with
+       | .ok200 (some b) => b.ok = true ∧ b.key = some k   -- a 200 body is taken as the answer
+       | _ => True)
   | _ => True
 
 /-- no answer can arrive on an ended event stream: the modes that remain -/
 def Mode.noEvent {α : Type} : Mode α → Bool
   | .evThenAck _ => false
   | .ackThenEv _ => false
+  | .evThenPost _ _ => false
   | _ => true
 
 structure Req (α : Type) where
@@ -565,6 +585,7 @@ def mid {α : Type} (mode : Mode α) (bg1 : List (Msg α)) : List (Out α) :=
   | .evThenAck _ => oks bg1
   | .ackThenEv _ => oks bg1
   | .silence => oks bg1
+  | .evThenPost _ _ => oks bg1
   | _ => []
 
 /-- everything the schedule of one request is expected to put on the read stream -/
@@ -623,16 +644,16 @@ def srvDelivered {α : Type} (dec : Str → Option (Msg α)) (acts : List Act) :
     | .endpoint _ => none)
 
 def session {α : Type} (dec : Str → Option (Msg α)) (url : Str) (T cap : Nat) (conn : Conn)
-    (chunks : List (Nat × Str)) (close : Option Nat) (reqs : List (Str × Mode α)) : SessionObs α :=
+    (chunks : List (Nat × Str)) (close : Option Nat) (reqs : List (Str × Mode α × List (Msg α))) : SessionObs α :=
   let acts := runTimed PSt.init chunks
   let e := enter (normBase url) { T := T, cap := cap, conn := conn, acts := acts, close := close }
   match e with
   | .raised _ => { enter := e, srv := [], terms := [] }
   | .yielded _ _ =>
     let final := runReqs St.init
-      (reqs.map (fun (k, m) => ({ key := k, mode := m, bg0 := [], bg1 := [], bg2 := [] } : Req α)))
+      (reqs.map (fun (k, m, late) => ({ key := k, mode := m, bg0 := [], bg1 := [], bg2 := late } : Req α)))
     { enter := e,
       srv := srvDelivered dec (acts.map (·.2)),
-      terms := reqs.map (fun (k, _) => final.out.filter (fun o => decide (o.key = some k))) }
+      terms := reqs.map (fun (k, _, _) => final.out.filter (fun o => decide (o.key = some k))) }
 
 end Verif.Model.SseReq
